@@ -106,7 +106,7 @@ class ScaleLinearCompuMethod(CompuMethod):
             # reference point must be identical
             y0 = s0.convert_internal_to_physical(x)
             y1 = s1.convert_internal_to_physical(x)
-            if abs(y0 - y1) < 1e-10:
+            if abs(y0 - y1) > 1e-10:
                 self._is_invertible = False
                 break
 
@@ -139,6 +139,10 @@ class ScaleLinearCompuMethod(CompuMethod):
         return seg.convert_internal_to_physical(internal_value)
 
     def is_valid_physical_value(self, physical_value: AtomicOdxType) -> bool:
+        if not self._is_invertible:
+            # physical values cannot be encoded by non-invertible transfer functions
+            return False
+
         return any(True for seg in self._segments if seg.physical_applies(physical_value))
 
     def is_valid_internal_value(self, internal_value: AtomicOdxType) -> bool:
